@@ -687,7 +687,7 @@ class Log(registering.StoriedRegistrar):
                     try:
                         text = fmt % value
                     except TypeError:
-                        text = '\t%s' % value
+                        text = '\t%s' % (value,)
                     cf.write(ns2u(text))
 
                 else:  # field no longer present in loggee so just tab
@@ -794,7 +794,7 @@ class Log(registering.StoriedRegistrar):
                             try:
                                 text = fmt % value
                             except TypeError:
-                                text = '\t%s' % value
+                                text = '\t%s' % (value,)
                             cf.write(ns2u(text))
 
                         else:  # field not in element
